@@ -7,6 +7,8 @@
     c10.strict S ORA               model: user_id::validate_strict
     c10.spec.struct <kind> S ORA   SPEC: required structure holds?            → t / f
     c10.spec.gram <kind> S ORA     SPEC: in the recommended grammar?          → t / f
+    c10.spec.tight <kind> S ORA    SPEC: required structure and no port above 65535? → t / f
+                                   (na for the Unicode-dependent types on non-ASCII input)
     c10.ctor.pwsn S S ORA          model: UserId::parse_with_server_name(id, server)
     c10.ctor.key <kind> S S        model: KeyId::from_parts(algorithm, key_name)
     c10.ctor.new <kind> S          (oracle-only on the implementation side) → ok
@@ -211,6 +213,14 @@ def handle (toks : List String) : String :=
   | "c10.spec.gram" :: k :: s :: ora =>
     match kindOf k, parseStrTok s, parseOracles ora with
     | some k, some s, some t => withExt t (fun x => tf (Spec.IdGrammar.gram x.isIpv6 k s))
+    | _, _, _ => "bad-op"
+  | "c10.spec.tight" :: k :: s :: ora =>
+    match kindOf k, parseStrTok s, parseOracles ora with
+    | some k, some s, some t =>
+      if [Kind.signingKeyVersion, .base64PublicKey, .clientSecret, .keyVersion, .keyBase64].contains k
+          && s.any (· ≥ 128) then "na"
+      else withExt t (fun x =>
+        tf (Spec.IdGrammar.struct x.isIpv6 k s && !Spec.IdGrammar.structBigPort x.isIpv6 k s))
     | _, _, _ => "bad-op"
   | "c10.ctor.pwsn" :: id :: srv :: ora =>
     match parseStrTok id, parseStrTok srv, parseOracles ora with
